@@ -722,7 +722,9 @@ pub fn run(ctx: &Ctx) -> &'static str {
     );
     if ctx.tier == Tier::Thorough {
         concurrent_stress(ctx);
-        crate::props::e2e::run(ctx, crate::props::e2e::Phase::Control, 1);
+    }
+    crate::props::e2e::run(ctx, crate::props::e2e::Phase::Control, ctx.tier.pick(1, 4));
+    if ctx.tier == Tier::Thorough {
         crate::fuzzrun::campaign(ctx, "c18_control", 300);
     }
     "exploration"
